@@ -5,6 +5,7 @@ from ..r_protocol import run_protocol
 from ..r_alias import rule_fix_stereo_exit, rule_no_mutation_of_cached
 from ..r_construct import rule_seeded_string_complete as _rule_seeded
 from ..r_hygiene import rule_hygiene as _rule_hygiene
+from ..r_canon import rule_closure_order_consumers as _rule_closure_order
 from ..r_stereo import rule_pair_key_symmetry as _rule_pair_key
 from ..r_codebooks import rule_allene_reference_choice as _rule_allene_ref
 
@@ -29,5 +30,6 @@ def run(ck, repo):
     rule_bfs_distance(ck, repo, 'C01.D2-bfs-distance', lambda f: f.module.name == 'chython.algorithms.smiles', floor=2)
     _rule_seeded(ck, repo, 'C01.D1-seeded-string')
     _rule_hygiene(ck, repo, 'C01.H-dataflow-hygiene', 'C01')
+    _rule_closure_order(ck, repo, 'C01.D3-closure-order')
     _rule_pair_key(ck, repo, 'C01.D6-pair-key-symmetry')
     _rule_allene_ref(ck, repo, 'C01.D3-allene-reference')
